@@ -487,8 +487,10 @@ def oracle(ctx, c, o):
             V("initial-penalty", "automatic initial penalty %r outside [min_penalty=%r, max_penalty=%r]" % (S0, p["minpen"], p["maxpen"]))
         if o["n_f"] != 1 or o["n_g"] != 1:
             V("initial-penalty", "automatic initialisation evaluated f %d times and g %d times" % (o["n_f"], o["n_g"]))
-    pen_pre = (finite_params and p["maxpen"] > 0 and all(math.isfinite(s) and s > 0 for s in S0) and
-               (not c["single"] or (p["Δ"] >= 1 and all(s == S0[0] for s in S0))))
+    # preconditions of the penalty invariants (since the fix "ALM lowered penalty factors that exceed max_penalty" nothing relates
+    # the initial Σ to max_penalty or restricts Δ): finite parameters, initial Σ > 0, single factor => one common initial value
+    pen_pre = (finite_params and all(math.isfinite(s) and s > 0 for s in S0) and
+               (not c["single"] or all(s == S0[0] for s in S0)))
     if pen_pre:
         above = any(s > p["maxpen"] for s in S0)
         for k in range(n):
@@ -497,8 +499,8 @@ def oracle(ctx, c, o):
                 V("sigma-size", "Σ of size %d for m=%d" % (len(S), m)); break
             if not all(s > 0 for s in S):
                 V("sigma-not-positive", "inner solve #%d received Σ=%r" % (k, S)); break
-            if not above and any(s > p["maxpen"] for s in S):
-                V("sigma-above-max", "inner solve #%d received Σ=%r, max_penalty=%r" % (k, S, p["maxpen"])); break
+            if any(s > max(s0, p["maxpen"]) for s, s0 in zip(S, S0)):
+                V("sigma-above-max", "inner solve #%d received Σ=%r above max(initial Σ=%r, max_penalty=%r)" % (k, S, S0, p["maxpen"])); break
             if k == 0:
                 continue
             P_ = calls[k - 1]["S"]
@@ -551,8 +553,8 @@ def run(ctx):
         "theorems are over ideal reals: NaN/inf and rounding enter only through the binary64 run of the same definitions (correspondence)",
         "the clock is modelled by one boolean per inner solve (elapsed > max_time when the loop reads the clock); the driver brackets the loop's reading with its own readings and discards straddling cases",
         "the inner solver is modelled as a script entry (status, ε, err_z written or untouched, y written or untouched, iterations); x is ignored by the outer loop",
-        "preconditions of the penalty invariants: max_penalty > 0, initial Σ > 0 (caller's or initial_penalty or auto with 0 < min_penalty <= max_penalty), "
-        "single_penalty_factor => Δ >= 1 and a uniform initial Σ; of the tolerance invariants: 0 <= tolerance_update_factor <= 1, tolerance <= initial_tolerance, 0 <= initial_tolerance; "
+        "preconditions of the penalty invariants: initial Σ > 0 (caller's or initial_penalty or auto with 0 < min_penalty <= max_penalty), "
+        "single_penalty_factor => a uniform initial Σ (setConstant(fmax(Σ(0), ..)) would lower larger later components); of the tolerance invariants: 0 <= tolerance_update_factor <= 1, tolerance <= initial_tolerance, 0 <= initial_tolerance; "
         "of the multiplier bounds: max_multiplier >= 0; m = 0: the inner solver's own contract (Converged => ε <= requested tolerance) is needed for 'Converged iff'",
         "eval_proj_multipliers is the BoxConstrProblem implementation (Prox.proj_multipliers, proved in C15)",
     ]
